@@ -338,6 +338,7 @@ class Run:
         self.shared = {}  # key / user objects shared between sessions (plan["share_objects"])
         self.latency = plan.get("latency_ns", 1_000_001)
         self.sim.on_send = self.on_send
+        self.sim.on_send_failed = self.on_send_failed
         self.sim.pre_send = self.pre_send
         self.sim.recv_cost_ns = plan.get("recv_cost_ns", 0)
         self.cur_op = {}  # session idx -> [op id, requests sent within the op]
@@ -401,6 +402,16 @@ class Run:
         items = script.get("replies", DEFAULT_SCRIPT["replies"])
         for item in items:
             self.emit(idx, serial, item, base, data)
+
+    def on_send_failed(self, ep, serial, data):
+        """The local stack refused the datagram: nobody receives it, but it was built (ids, salts
+        and counters were consumed) - decode it for the oracles that follow the session's state."""
+        from . import oracle
+
+        dec = oracle.decode_wire(self, ep.idx, data)
+        dec["send_failed"] = True
+        self.wire_dec[(ep.idx, serial)] = dec
+        self.genuine[self.key_of[(ep.idx, serial)]] = None
 
     def id_ctx(self, idx, serial):
         # only the most recent earlier id is ever looked at (faults.resolve_id "prev")
@@ -799,7 +810,21 @@ class Run:
         self.cur_op[s] = [op.get("id", i), 0]
         res = {"s": s, "i": i, "op": op, "t0": t0, "tx0": sim.by_idx[s].tx_serial}
         try:
-            res["ok"] = await coro_fn()
+            if op.get("cancel_ns"):
+                # the caller puts its own, shorter deadline around the call (asyncio.wait_for): the
+                # pending call is cancelled from outside and the session is used again afterwards
+                sim.count("fault.caller-cancel-armed")
+                try:
+                    res["ok"] = await asyncio.wait_for(coro_fn(), op["cancel_ns"] / 1e9)
+                except TimeoutError:
+                    if sim.now - t0 >= op["cancel_ns"] - 1000 and op["cancel_ns"] < self.sess_cfg[s].get("timeout_ns", 2_000_000_000):
+                        res["cancelled"] = True
+                        sim.count("fault.caller-cancelled")
+                        res["exc"] = {"exc": "CallerCancelled", "mro": ["CallerCancelled"], "msg": "", "documented": True}
+                    else:
+                        raise
+            else:
+                res["ok"] = await coro_fn()
         except BaseException as e:  # noqa: BLE001
             if isinstance(e, (HarnessError, asyncio.CancelledError)):
                 raise
